@@ -35,6 +35,7 @@ def gen(W):
     if W.chance(0.3):
         sc["fault"] = {"cid": W.draw(len(sc["conns"])), "send": W.draw(12),
                        "errno": W.choice(["ETIMEDOUT", "EHOSTUNREACH", "RST", "EINVAL", "RECV_EAGAIN"])}
+    sc["log_socket_errors"] = W.chance(0.6)
     return sc
 
 
@@ -42,7 +43,8 @@ def run_one(tapes, tier, scenario=None):
     sc = scenario if scenario is not None else gen(tapes.W)
     res = RunResult()
     res.scenario = sc
-    ctx = pipeline.build(tapes, sc, infinite_poll=True, horizon=600.0)
+    ctx = pipeline.build(tapes, sc, infinite_poll=True, horizon=600.0,
+                         extra_knobs={"log_socket_errors": sc.get("log_socket_errors", True)})
     sim, k, app = ctx.sim, ctx.k, ctx.app
     snap = {}
 
